@@ -122,8 +122,28 @@ NewMol(mm_, dd_) ==
     /\ obs' = [kind |-> "mol", p |-> SrcP(mm_, dd_), w |-> SrcW(mm_, dd_), pa |-> FALSE, wa |-> FALSE]
     /\ UNCHANGED objs
 
+\* an atomic grid whose shells use SEVERAL degrees (degree / size lists, pruned and preset constructors): one
+\* internal angular grid (cache=True) per shell; every degree of the set DD_ is looked up, missing ones are
+\* loaded and cached, and the grid is the shipped data iff every source was
+CacheAfterSet(mm_, DD_) ==
+    [cache EXCEPT ![mm_] = [dd_ \in Degrees |->
+        IF dd_ \in DD_ /\ ~Hit(mm_, dd_) THEN [present |-> TRUE, p |-> "ok", w |-> "ok"] ELSE cache[mm_][dd_]]]
+AllOk(mm_, DD_, part_) ==
+    IF \A dd_ \in DD_ : (IF part_ = "p" THEN SrcP(mm_, dd_) ELSE SrcW(mm_, dd_)) = "ok" THEN "ok" ELSE "dirty"
+NewAtomSet(mm_, DD_) ==
+    /\ DD_ # {}
+    /\ cache' = CacheAfterSet(mm_, DD_)
+    /\ obs' = [kind |-> "atomset", p |-> AllOk(mm_, DD_, "p"), w |-> AllOk(mm_, DD_, "w"), pa |-> FALSE, wa |-> FALSE]
+    /\ UNCHANGED objs
+\* a read-only use of a live user object (integration, indexing, local grids): nothing changes
+Use(i_) ==
+    /\ i_ \in 1..Len(objs)
+    /\ obs' = NoObs /\ UNCHANGED <<cache, objs>>
+
 Next == \/ \E mm_ \in Methods, dd_ \in Degrees, ff_ \in BOOLEAN : NewAngular(mm_, dd_, ff_)
         \/ \E mm_ \in Methods, dd_ \in Degrees : NewAtomRot(mm_, dd_) \/ NewMol(mm_, dd_)
+        \/ \E mm_ \in Methods, DD_ \in SUBSET Degrees : NewAtomSet(mm_, DD_)
+        \/ \E i_ \in 1..MaxObjs : Use(i_)
         \/ \E i_ \in 1..MaxObjs, pp_ \in {"p", "w"} : Edit(i_, pp_)
         \/ \E i_ \in 1..MaxObjs : Drop(i_)
         \/ \E mm_ \in Methods, dd_ \in Degrees : NewAtom(mm_, dd_) \/ Shell(mm_, dd_) \/ AtomOp(mm_, dd_)
